@@ -21,6 +21,7 @@ import (
 	"os"
 	"runtime"
 	"strconv"
+	"strings"
 	"sync"
 	"sync/atomic"
 	"time"
@@ -552,7 +553,7 @@ func (s *vSched) choose(cs []vChoice, step int) vChoice {
 				}
 			}
 			for _, c := range cs {
-				if c.actor != nil && (c.actor.gate.pt == vpxStart || c.actor.gate.pt == vpxBlockUntil) {
+				if c.actor != nil && (c.actor.gate.pt == vpxStart || c.actor.gate.pt == vpxBlockUntil) && !strings.HasPrefix(c.actor.name, "task") && !strings.HasPrefix(c.actor.name, "hup") {
 					return c
 				}
 			}
